@@ -25,6 +25,12 @@ pub fn run(o: &Opts) -> Report {
         if hyph { for &i in cv.opts.iter() { if rng.chance(1, 2) { cv.cmd.args[i].allow_hyphen = true; } } }
         let use_last = rng.chance(1, 4);
         if use_last { cv.cmd.args[lastp].last = true; }
+        // a capturing last positional that is not `last`: the tail still fills the positionals in order
+        let tva = !use_last && rng.chance(1, 3);
+        if tva { cv.cmd.args[lastp].trailing_var_arg = true; }
+        // early-tail mode: `--` arrives before every single positional is filled, the tail fills them in order
+        let early_tail = !use_last && cv.pos.len() >= 2 && rng.chance(1, 3);
+        if early_tail { for &i in cv.pos.iter() { cv.cmd.args[i].delim = None; } }
         if rng.chance(1, 2) { cv.cmd.subs.push(CmdS { name: "sub1".into(), args: vec![ArgS { id: "x".into(), long: Some("xx".into()), action: Some("setTrue"), ..Default::default() }], ..Default::default() }); cv.cmd.settings.infer_subcommands = rng.chance(1, 3); }
         if !real_valid(&cv.cmd) { rep.count("invalid_definition(skipped)"); continue; }
         done += 1;
@@ -37,13 +43,24 @@ pub fn run(o: &Opts) -> Report {
                 if inv.items.iter().filter(|it| matches!(it, Item::Pos { .. })).count() < single { continue; }
                 if inv.tail.is_none() { inv.tail = Some(vec![b"t".to_vec()]); }
             }
+            if tva { // once a trailing_var_arg positional collects, `--` itself is one of its values (documented): keep it empty before the `--`
+                let single = cv.pos.len() - 1; let mut seen = 0;
+                inv.items.retain(|it| match it { Item::Pos { .. } => { seen += 1; seen <= single } _ => true });
+                for it in inv.items.iter_mut() { if let Item::Pos { vals } = it { vals.truncate(1); } }
+            }
+            if early_tail && inv.tail.is_some() {
+                // drop the last single-positional value of the prefix (and what the multi positional got): the tail supplies them
+                let mut kept = 0; let singles = cv.pos.len() - 1; let drop_from = rng.below(singles);
+                inv.items.retain(|it| match it { Item::Pos { .. } => { kept += 1; kept <= drop_from } _ => true });
+                if inv.tail.as_ref().map(|t| t.is_empty()).unwrap_or(true) { inv.tail = Some(vec![b"t1".to_vec(), b"-t2".to_vec()]); }
+            }
             let Some(tail) = inv.tail.clone() else { continue };
             let mut tail = tail;
             if rng.chance(1, 3) { tail.push(b"sub1".to_vec()); }
             inv.tail = Some(tail.clone());
             let mut argv = render(&mut rng, &cv, &inv, false);
             // sometimes the arg that is collecting when `--` arrives has just taken a negative number
-            if neg && rng.chance(1, 2) { let at = argv.len() - tail.len() - 1; argv.insert(at, rng.pick(&["-1", "-2.5", "-3e4"]).as_bytes().to_vec()); }
+            if neg && !tva && rng.chance(1, 2) { let at = argv.len() - tail.len() - 1; argv.insert(at, rng.pick(&["-1", "-2.5", "-3e4"]).as_bytes().to_vec()); }
             let pre: Vec<Vec<u8>> = argv[..argv.len() - tail.len() - 1].to_vec();
             // an option that takes hyphen values may legitimately swallow the `--` (documented); skip those lines
             if hyph { let (c0, _, _) = real_parse(&cv.cmd, &pre); let _ = c0; }
@@ -63,6 +80,17 @@ pub fn run(o: &Opts) -> Report {
                         let mut exp = posvals(pmt);
                         // splitting of earlier (single) positionals at their delimiter is the same in both parses
                         exp.extend(tail.iter().cloned());
+                        // … and in order: tail tokens first fill the single positionals the prefix left empty, the rest goes to the last one
+                        if !hyph {
+                            let per = |mt: &clap::ArgMatches, i: usize| -> Vec<Vec<u8>> { mt.get_raw(&cv.cmd.args[i].id).map(|r| r.map(|v| v.as_bytes().to_vec()).collect::<Vec<_>>()).unwrap_or_default() };
+                            let mut it = tail.iter();
+                            for (k, &i) in cv.pos.iter().enumerate() {
+                                let mut want = per(pmt, i);
+                                if k + 1 < cv.pos.len() { if want.is_empty() { if let Some(t) = it.next() { want.push(t.clone()); } } } else { want.extend(it.by_ref().cloned()); }
+                                let have = per(m, i);
+                                if have != want { rep.oracle_fail("tail-fills-positionals-out-of-order", &req, &format!("{}: got {:?} expected {:?}", cv.cmd.args[i].id, have.iter().map(|v| String::from_utf8_lossy(v).to_string()).collect::<Vec<_>>(), want.iter().map(|v| String::from_utf8_lossy(v).to_string()).collect::<Vec<_>>())); break; }
+                            }
+                        }
                         if got != exp && !hyph { rep.oracle_fail("tail-not-delivered-verbatim", &req, &format!("positionals got {:?} expected {:?}", got.iter().map(|v| String::from_utf8_lossy(v).to_string()).collect::<Vec<_>>(), exp.iter().map(|v| String::from_utf8_lossy(v).to_string()).collect::<Vec<_>>())); }
                         for &i in cv.opts.iter().chain(cv.flags.iter()) {
                             let id = &cv.cmd.args[i].id;
